@@ -299,7 +299,34 @@ package server
 //@   modifies AofChannel.*, AofLockQueue.next, AofLockQueue.windex, AofLock.*, Aof.freeLockQueueIndex, LockData.aofData, LockManagerData.isAof, Lock.data@lock, Lock.isAof@lock, PriorityMutex.*, E_Pserver_AofLock
 
 // ---- value operations (C15); here only their frames ----
+// value frames: [0..3] little-endian length of the rest, [4] operation, [5] flags (0x10: property header
+// follows as 2-byte length + bytes), then the payload at the value offset
+//@ spec func voffC(c) = ite(c.DataFlag&0x10 != 0, c.Data[6] + c.Data[7]*256 + 8, 6)
+//@ spec func voffM(d) = ite(isnil(d.data) || len(d.data) < 8, 6, ite(d.data[5]&0x10 != 0, d.data[6] + d.data[7]*256 + 8, 6))
+//@ spec func hasValue(d) = d != nil && !isnil(d.data) && d.commandType != 1
+// the bytes at o are the little-endian encoding of n (stated byte by byte, the way the code writes them)
+//@ spec func putLE32(b, o, n) = b[o] == u8(n) && b[o+1] == u8(n >> 8) && b[o+2] == u8(n >> 16) && b[o+3] == u8(n >> 24)
+//@ spec func putLE64(b, o, n) = putLE32(b, o, n) && b[o+4] == u8(n >> 32) && b[o+5] == u8(n >> 40) && b[o+6] == u8(n >> 48) && b[o+7] == u8(n >> 56)
+//@ spec func frameLenOk(b) = putLE32(b, 0, len(b) - 4)
+// the number a value frame holds: up to eight little-endian payload bytes, as a signed 64-bit integer
+//@ spec func byteOr0(b, i) = ite(i < len(b), b[i], 0)
+//@ spec func numAt(b, o) = i64(byteOr0(b, o) + byteOr0(b, o+1)*0x100 + byteOr0(b, o+2)*0x10000 + byteOr0(b, o+3)*0x1000000 + byteOr0(b, o+4)*0x100000000 + byteOr0(b, o+5)*0x10000000000 + byteOr0(b, o+6)*0x1000000000000 + byteOr0(b, o+7)*0x100000000000000)
 //@ func (*LockManager).ProcessLockData
+//@   requires C15.frames: self != nil && command != nil && implies(command.Data != nil, !isnil(command.Data.Data) && len(command.Data.Data) >= 6 && len(command.Data.Data) < 0x40000000 && voffC(command.Data) <= len(command.Data.Data)) && implies(self.currentData != nil && !isnil(self.currentData.data), len(self.currentData.data) >= 6 && len(self.currentData.data) < 0x40000000 && voffM(self.currentData) <= len(self.currentData.data))
+//@   ensures C15.op.unset: implies(calls(NewLockManagerDataUnsetData) == 1 && calls(ProcessLockData) == 0, isnil(curValue(self)) && self.currentData != nil && self.currentData.commandType == 1)
+//@   ensures C15.op.consumed: command.Data == nil || calls(ProcessLockData) >= 1
+//@   at call NewLockManagerData assert C15.op.set: implies(arg1 == 0, arg0 == lockCommandData.Data)
+//@   at call NewLockManagerData assert C15.op.append-first: implies(arg1 == 3 && !hasValue(currentLockData), arg0 == lockCommandData.Data && arg0[4] == 0)
+//@   at call NewLockManagerData assert C15.op.append: implies(arg1 == 3 && hasValue(currentLockData), len(arg0) == len(currentLockData.data) + len(lockCommandData.Data) - voffC(lockCommandData) && arg0[4] == 0 && arg0[5] == currentLockData.data[5] && forall(k, 6, len(currentLockData.data), arg0[k] == currentLockData.data[k]) && forall(k, 0, len(lockCommandData.Data) - voffC(lockCommandData), arg0[len(currentLockData.data) + k] == lockCommandData.Data[voffC(lockCommandData) + k]))
+//@   at call NewLockManagerData assert C15.op.shift: implies(arg1 == 4, len(arg0) == len(currentLockData.data) - min(lengthValue, len(currentLockData.data) - voffM(currentLockData)) && len(arg0) >= voffM(currentLockData) && arg0[4] == 0 && arg0[5] == currentLockData.data[5] && forall(k, 6, voffM(currentLockData), arg0[k] == currentLockData.data[k]) && forall(k, voffM(currentLockData), len(arg0), arg0[k] == currentLockData.data[k + len(currentLockData.data) - len(arg0)]))
+//@   at call NewLockManagerData assert C15.op.push-first: implies(arg1 == 7 && !(hasValue(currentLockData) && len(currentLockData.data) >= 6 && currentLockData.data[5]&0x02 != 0), len(arg0) == len(lockCommandData.Data) + 4 && arg0[4] == 0 && arg0[5] == (lockCommandData.Data[5]&0xf8)|0x02 && forall(k, 6, voffC(lockCommandData), arg0[k] == lockCommandData.Data[k]) && putLE32(arg0, voffC(lockCommandData), len(lockCommandData.Data) - voffC(lockCommandData)) && forall(k, 0, len(lockCommandData.Data) - voffC(lockCommandData), arg0[voffC(lockCommandData) + 4 + k] == lockCommandData.Data[voffC(lockCommandData) + k]))
+//@   at call NewLockManagerData assert C15.op.push-head: implies(arg1 == 7 && hasValue(currentLockData) && len(currentLockData.data) >= 6 && currentLockData.data[5]&0x02 != 0, len(arg0) == len(currentLockData.data) + 4 + len(lockCommandData.Data) - voffC(lockCommandData) && arg0[4] == 0 && arg0[5] == (currentLockData.data[5]&0xf8)|0x02)
+//@   at call NewLockManagerData assert C15.op.push-keep: implies(arg1 == 7 && hasValue(currentLockData) && len(currentLockData.data) >= 6 && currentLockData.data[5]&0x02 != 0, forall(k, 6, len(currentLockData.data), arg0[k] == currentLockData.data[k]))
+//@   at call NewLockManagerData assert C15.op.push-elemlen: implies(arg1 == 7 && hasValue(currentLockData) && len(currentLockData.data) >= 6 && currentLockData.data[5]&0x02 != 0, putLE32(arg0, len(currentLockData.data), len(lockCommandData.Data) - voffC(lockCommandData)))
+//@   at call NewLockManagerData assert C15.op.push-elem: implies(arg1 == 7 && hasValue(currentLockData) && len(currentLockData.data) >= 6 && currentLockData.data[5]&0x02 != 0, forall(k, 0, len(lockCommandData.Data) - voffC(lockCommandData), arg0[len(currentLockData.data) + 4 + k] == lockCommandData.Data[voffC(lockCommandData) + k]))
+//@   at call NewLockManagerData assert C15.op.incr: implies(arg1 == 2, len(arg0) >= 14 && putLE64(arg0, len(arg0) - 8, incrValue) && arg0[4] == 0 && arg0[5]&0x01 != 0)
+//@   at call NewLockManagerData assert C15.op.header: implies(arg1 == 3 && hasValue(currentLockData) || arg1 == 4 || arg1 == 7, frameLenOk(arg0))
+//@   ghost valueBefore[ref(self)] = curValue(self)
 //@   assumes command.Rcount == old(command.Rcount) && command.Flag == old(command.Flag) && command.TimeoutFlag == old(command.TimeoutFlag) && command.ExpriedFlag == old(command.ExpriedFlag) && command.Expried == old(command.Expried) && command.Timeout == old(command.Timeout) && command.Count == old(command.Count) && command.LockId == old(command.LockId) && command.LockKey == old(command.LockKey)
 //@   modifies protocol.LockCommand.*, protocol.LockDBState.KeyCount, protocol.LockDBState.SlowKeyCount, LockDB.freeLockManagerHead, LockDB.freeLockManagerTail, LockDB.managerGlockIndex, LockData.*, LockManagerData.isAof, LockManager.currentData, LockManager.fastKeyValue, LockManager.lockKey, LockManager.refCount, Lock.data, PriorityMutex.*, LockDBExecutor.*, LockDBExecutorTask.*, E_Pserver_LockDBExecutor, E_Pserver_LockDBExecutorTask, E_Pserver_LockManager, E_server_FastKeyValue, MH_mapLL16JbyteJPserver_LockManager, MV_mapLL16JbyteJPserver_LockManager, BinaryServerProtocol.*, TextServerProtocol.*, MemWaiterServerProtocol.*, ProxyServerProtocol.*, TransparencyBinaryServerProtocol.*, TransparencyTextServerProtocol.*, Stream.*, StreamWriterBuffer.*, StreamReaderBuffer.*, protocol.TextParser.*
 //@ func (*LockManager).ProcessExecuteLockCommand
@@ -311,7 +338,11 @@ package server
 //@   modifies protocol.LockCommand.*, protocol.LockDBState.KeyCount, protocol.LockDBState.SlowKeyCount, LockDB.freeLockManagerHead, LockDB.freeLockManagerTail, LockDB.managerGlockIndex, LockData.*, LockManager.fastKeyValue, LockManager.lockKey, LockManager.refCount, Lock.data, PriorityMutex.*, LockDBExecutor.*, LockDBExecutorTask.*, E_Pserver_LockDBExecutor, E_Pserver_LockDBExecutorTask, E_Pserver_LockManager, E_server_FastKeyValue, MH_mapLL16JbyteJPserver_LockManager, MV_mapLL16JbyteJPserver_LockManager, BinaryServerProtocol.*, TextServerProtocol.*, MemWaiterServerProtocol.*, ProxyServerProtocol.*, TransparencyBinaryServerProtocol.*, TransparencyTextServerProtocol.*, Stream.*, StreamWriterBuffer.*, StreamReaderBuffer.*, protocol.TextParser.*
 //@ func (*Lock).ClearLockCommandDatas
 //@   modifies LockData.commandDatas
+//@ spec func curValue(m) = ite(m.currentData != nil && !isnil(m.currentData.data) && m.currentData.commandType != protocol.LOCK_DATA_COMMAND_TYPE_UNSET, m.currentData.data, nil)
+//@ ghost valueBefore : Slice
 //@ func (*LockManager).GetLockData
+//@   requires self != nil
+//@   ensures C15.value.read: result == curValue(self)
 //@   modifies nothing
 
 // ---- timer wheels ----
@@ -397,6 +428,8 @@ package server
 //@   modifies LockManager.refCount, LockManagerWaitQueue.*, LockManagerRingQueue.*, LockManagerPriorityRingQueue.*, LockManagerPriorityRingQueueNode.*, LockQueue.*, Lock.aofTime, Lock.command, Lock.data, Lock.isAof, Lock.manager, Lock.protocol, Lock.refCount, E_LJPserver_Lock, E_Pserver_Lock, E_Pserver_LockManagerPriorityRingQueueNode, E_int32
 
 //@ func (*LockDB).Lock
+//@   at call PriorityMutex.Unlock assert C15.value.frame: implies(calls(ProcessLockData) == 0 && calls(ProcessAckLockData) == 0 && calls(ProcessRecoverLockData) == 0 && calls(RemoveLockManager) == 0 && calls(wakeUpWaitLocks) == 0 && calls(DoAckLock) == 0 && calls(doExpried) == 0 && calls(doTimeOut) == 0 && calls(cancelWaitLock) == 0, lockManager.currentData == atsection(lockManager.currentData))
+//@   at call ProcessLockResultCommand assert C15.reply.before: implies(calls(ProcessLockData) >= 1, arg5 == ghost.valueBefore[ref(lockManager)])
 //@   requires self != nil && command != nil && !isnil(serverProtocol)
 //@   at call GetOrNewLockManager after havoc Lock.*, LockManager.locked, LockManager.currentLock, LockManager.currentData, LockManager.locks, LockManager.waitLocks, LockManager.waited, LockManager.refCount, LockManager.lockKey, LockManager.fastKeyValue, LockManagerLockQueue.*, LockManagerWaitQueue.*, LockQueue.*, protocol.LockDBState.*, LockDB.status, LockDB.currentTime
 //@   at call GetOrNewLockManager after assume sectionInv(self, callresult) && callresult.freeLocks != nil && sectionAssumeOnly(callresult)
@@ -427,6 +460,7 @@ package server
 //@   modifies all
 
 //@ func (*LockDB).wakeUpWaitLock
+//@   at call ProcessLockResultCommand assert C15.reply.before: implies(calls(ProcessLockData) >= 1, arg5 == ghost.valueBefore[ref(lockManager)])
 //@   inline
 //@   at call AddLock assert C01.wake.key,C04.wake.key: waitLock.manager == lockManager && waitLock.locked == 0 && (admissible(lockManager, waitLock) || unlimitedClass(lockManager, waitLock))
 //@   at call ProcessLockData assert C11.wake.recover: arg3 == !waitLock.timeouted
@@ -461,6 +495,8 @@ package server
 //@ spec func ownsHold(m, cur, cmdLockId, cmdFlag) = cur != nil && atsection(cur.locked) > 0 && ((atsection(cur.command.LockId) == cmdLockId && atsection(cur.ackCount) == 0xff) || (cmdFlag&0x01 != 0 && cur == atsection(m.currentLock)))
 
 //@ func (*LockDB).UnLock
+//@   at call PriorityMutex.Unlock assert C15.value.frame: implies(calls(ProcessLockData) == 0 && calls(ProcessAckLockData) == 0 && calls(ProcessRecoverLockData) == 0 && calls(RemoveLockManager) == 0 && calls(wakeUpWaitLocks) == 0 && calls(DoAckLock) == 0 && calls(doExpried) == 0 && calls(doTimeOut) == 0 && calls(cancelWaitLock) == 0, lockManager.currentData == atsection(lockManager.currentData))
+//@   at call ProcessLockResultCommand assert C15.reply.before: implies(calls(ProcessLockData) >= 1, arg5 == ghost.valueBefore[ref(lockManager)])
 //@   requires self != nil && command != nil && !isnil(serverProtocol)
 //@   at call PushUnLockAof assert C07.unlock.persisted-kept: implies(arg6&0x0008 != 0, arg5 && arg2.locked > 0)
 //@   at call GetLockManager after havoc Lock.*, LockManager.locked, LockManager.currentLock, LockManager.currentData, LockManager.locks, LockManager.waitLocks, LockManager.waited, LockManager.refCount, LockManager.lockKey, LockManager.fastKeyValue, LockManagerLockQueue.*, LockManagerWaitQueue.*, LockQueue.*, protocol.LockDBState.*, LockDB.status, LockDB.currentTime
